@@ -4,6 +4,8 @@ PROP = dict(
         workloads=[
             dict(name="amm-random", go_test="TestC05", runner="C05",
                  env=dict(quick=dict(VERIF_CASES=4000), thorough=dict(VERIF_CASES=40000))),
+            dict(name="keeper-orders", go_test="TestC05Keeper", runner="C05-keeper",
+                 env=dict(quick=dict(VERIF_CASES=8), thorough=dict(VERIF_CASES=200))),
             dict(name="amm-exhaustive", go_test="TestC05Exhaustive", runner="C05", tiers=("thorough",),
                  env=dict(thorough=dict(VERIF_C05_EXH=2))),
             dict(name="amm-exhaustive3", go_test="TestC05Exhaustive", runner="C05", tiers=("thorough",),
